@@ -6,8 +6,8 @@
    multiplication algorithms, modular inverse, the 10x26 / 8x32 / struct-int128 / asm configurations,
    SHA-256/HMAC/RFC 6979) is tied by the differential correspondence of ./check C05 on a build matrix. *)
 From Coq Require Import ZArith List Bool.
-Require Import Kernel.CSem Kernel.Field5x52 Kernel.Field5x52Sqr Kernel.CtPrimitives.
-Require Import Gen.fe_mul_inner Gen.fe_sqr_inner Gen.scalar_cmov Gen.fe_impl_cmov.
+Require Import Kernel.CSem Kernel.Field5x52 Kernel.Field5x52Sqr Kernel.CtPrimitives Kernel.FieldNormalize Kernel.Scalar4x64.
+Require Import Gen.fe_mul_inner Gen.fe_sqr_inner Gen.scalar_cmov Gen.fe_impl_cmov Gen.fe_impl_normalize Gen.scalar_check_overflow Gen.scalar_is_high.
 Import ListNotations.
 Local Open Scope Z_scope.
 
@@ -27,6 +27,30 @@ Theorem fe_sqr_inner_correct : forall a0 a1 a2 a3 a4,
   (val5 r0 r1 r2 r3 r4 - val5 a0 a1 a2 a3 a4 * val5 a0 a1 a2 a3 a4) mod P256 = 0).
 Proof. exact Kernel.Field5x52Sqr.fe_sqr_inner_correct. Qed.
 Print Assumptions fe_sqr_inner_correct.
+
+(* Normalisation returns the canonical representative for every limb vector of magnitude up to 32:
+   limbs in range (so value < 2^256) and value = input value mod p, in particular 0 <= value < p. *)
+Theorem fe_normalize_correct : forall r0 r1 r2 r3 r4,
+  0 <= r0 < 2^58 -> 0 <= r1 < 2^58 -> 0 <= r2 < 2^58 -> 0 <= r3 < 2^58 -> 0 <= r4 < 2^54 ->
+  fe_impl_normalize_k r0 r1 r2 r3 r4 (fun t0 t1 t2 t3 t4 =>
+    0 <= t0 < 2^52 /\ 0 <= t1 < 2^52 /\ 0 <= t2 < 2^52 /\ 0 <= t3 < 2^52 /\ 0 <= t4 < 2^48 /\
+    val5 t0 t1 t2 t3 t4 = (val5 r0 r1 r2 r3 r4) mod P256).
+Proof. exact Kernel.FieldNormalize.fe_normalize_correct. Qed.
+Print Assumptions fe_normalize_correct.
+
+(* The branch-free range tests of scalars decide exactly value >= n and value > n/2. *)
+Theorem scalar_check_overflow_correct : forall d0 d1 d2 d3,
+  0 <= d0 < 2^64 -> 0 <= d1 < 2^64 -> 0 <= d2 < 2^64 -> 0 <= d3 < 2^64 ->
+  scalar_check_overflow d0 d1 d2 d3 = if N256 <=? val4 d0 d1 d2 d3 then 1 else 0.
+Proof. exact Kernel.Scalar4x64.scalar_check_overflow_correct. Qed.
+Print Assumptions scalar_check_overflow_correct.
+Theorem scalar_is_high_correct : forall d0 d1 d2 d3,
+  0 <= d0 < 2^64 -> 0 <= d1 < 2^64 -> 0 <= d2 < 2^64 -> 0 <= d3 < 2^64 ->
+  scalar_is_high d0 d1 d2 d3 = if N256 / 2 <? val4 d0 d1 d2 d3 then 1 else 0.
+Proof. exact Kernel.Scalar4x64.scalar_is_high_correct. Qed.
+Print Assumptions scalar_is_high_correct.
+Theorem N256_is_group_order : N256 = 0xFFFFFFFFFFFFFFFFFFFFFFFFFFFFFFFEBAAEDCE6AF48A03BBFD25E8CD0364141.
+Proof. reflexivity. Qed.
 
 (* the modulus used above is the secp256k1 field prime *)
 Theorem P256_is_field_prime : P256 = 0xFFFFFFFFFFFFFFFFFFFFFFFFFFFFFFFFFFFFFFFFFFFFFFFFFFFFFFFEFFFFFC2F.
